@@ -27,7 +27,7 @@ ASSUMPTIONS = ["a record with one unlisted chromosome AND an out-of-range positi
                "the run fails, or the record is not counted in any pixel",
                "pairix loader not exercised (pypairix not installed)"]
 EXPECT_CLASSES = {"*": ["rec:kept", "rec:reflected", "rec:dropped-unknown", "rec:dropped-lower", "rec:refused", "loader:cload-pairs",
-                        "loader:load-coo", "loader:load-bg2", "loader:tabix"]}
+                        "loader:load-coo", "loader:load-bg2", "loader:tabix", "loader:tabix-schedule"]}
 
 TRIL = ["reflect", "drop", "raise", None]
 UNKNOWN = "zzUnknown"
@@ -51,6 +51,8 @@ def units(tier):
     for k in range(len(rep)):
         if sum(sum(c) for c in rep[k]) > 1:
             yield {"leg": "loaders", "B": B, "k": k}
+    for ti in (0, 1, 2):
+        yield {"leg": "tabix-sched", "t": ti}
 
 
 # ---- reference ---------------------------------------------------------------------------------
@@ -609,8 +611,83 @@ def _loaders(R, B, k, only):
     R.sample({"leg": "loaders", "table": tname, "records": [list(r) for r in recs[:5]], "n_records": len(recs)})
 
 
+def _tabix_sched(R, ti, tier, only):
+    """`cload tabix --nproc 3 --max-split k`: the pool of cooler.cli.cload is replaced by VirtualPool and every execution order /
+    laziness of the chunk map is explored (deviation bound 1, thorough 2): the cooler must not depend on it"""
+    import cooler.cli.cload as CL
+    import pysam
+    from vmc.core.rec import HarnessError
+    from vmc.seams import sched
+    if not hasattr(CL, "Pool"):
+        raise HarnessError("seam missing: cooler.cli.cload.Pool")
+    table = [((2, 2, 2), (2, 2)), ((1, 3, 2), (2, 1)), ((2, 2), (2,), (2, 2))][ti]
+    bins = alpha.table_bins(table, "chr")
+    names = alpha.NAMES["chr"][:len(table)]
+    order = {nm: q for q, nm in enumerate(names)}
+    sizes = models.ref_chromsizes(bins)
+    d = scratch.sub(f"c05ts_{os.getpid()}_{ti}")
+    bed = os.path.join(d, "bins.bed")
+    _write_lines(bed, bins)
+    E = _edge_anchors(bins, names)
+    up = [(a[0], a[1], b[0], b[1]) for a in E for b in E if (order[a[0]], a[1]) <= (order[b[0]], b[1])]
+    up.sort(key=lambda r: (order[r[0]], r[1], order[r[2]], r[3]))
+    txt = os.path.join(d, "t.txt")
+    _write_lines(txt, [(r[0], r[1], "+", r[2], r[3], "-") for r in up])
+    gz = txt + ".gz"
+    pysam.tabix_compress(txt, gz, force=True)
+    pysam.tabix_index(gz, seq_col=0, start_col=1, end_col=1, zerobased=True, force=True)
+    want = models.ref_aggregate(((models.ref_bin_of(bins, r[0], r[1]), models.ref_bin_of(bins, r[2], r[3])), 1) for r in up)
+    R.add("states")
+    R.add("traces")
+    bound = 2 if tier == "thorough" else 1
+    saved = CL.Pool
+    kk = 0
+    try:
+        for split in (2, 4):
+            def run(ch):
+                sched.VirtualPool.choices = ch
+                sched.VirtualPool.mon = None
+                CL.Pool = sched.VirtualPool
+                out = scratch.fresh()
+                try:
+                    code, so, exc = build.cli(["cload", "tabix", "--zero-based", "-c2", 4, "-p2", 5, "--nproc", 3, "--max-split", split, bed, gz, out])
+                finally:
+                    CL.Pool = saved
+                    sched.VirtualPool.choices = None
+                return out, code, exc
+            for ch, (out, code, exc) in sched.explore(run, bound):
+                kk += 1
+                choices = [c for (_, c, _) in ch.trace]
+                inner = {"max_split": split, "choices": choices}
+                try:
+                    if only is not None and only != inner:
+                        continue
+                    R.order = (R.order[0], kk)
+                    R.ev(1, 1 if any(choices) else 0)
+                    R.add("transitions")
+                    R.add("schedules")
+                    R.cls("loader:tabix-schedule")
+                    if code != 0 or exc is not None:
+                        R.mismatch("cload-tabix:fails-under-schedule", inner, f"code={code} exc={exc!r:.200}")
+                        continue
+                    got, rd = _read_pixels(out)
+                    if got != want:
+                        R.mismatch("cload-tabix:result-depends-on-schedule", inner, f"got={sorted(got.items())[:8]} want={sorted(want.items())[:8]}")
+                    v = h5ref.validate(out)
+                    if v:
+                        R.mismatch("cload-tabix:V-under-schedule", inner, f"{v}")
+                finally:
+                    scratch.rm(out)
+    finally:
+        CL.Pool = saved
+        scratch.rm(d)
+
+
 def run(unit, R, tier, only=None):
     leg = unit["leg"]
+    if leg == "tabix-sched":
+        _tabix_sched(R, unit["t"], tier, only)
+        return
     if leg == "records":
         tabs = _tables(unit["B"])[unit["lo"]:unit["hi"]]
         for q, t in enumerate(tabs):
